@@ -1972,13 +1972,12 @@ class JobsCursor:
                         )
 
         elif isinstance(key, Iterable):
-            sp_keys = []
-            doc_keys = []
-            for k in key:
-                if _is_doc_key(k):
-                    doc_keys.append(_strip_prefix(k))
-                else:
-                    sp_keys.append(_strip_prefix(k))
+            # The values of a group's label are in the order of the keys.
+            key = tuple(key)
+            label_keys = [(_is_doc_key(k), _strip_prefix(k)) for k in key]
+
+            def _source(job, is_doc):
+                return job.document if is_doc else job.cached_statepoint
 
             if default is None:
                 if _filter is None:
@@ -1988,16 +1987,15 @@ class JobsCursor:
 
                 def keyfunction(job):
                     return tuple(
-                        [_get(job.cached_statepoint, k) for k in sp_keys]
-                        + [_get(job.document, k) for k in doc_keys]
+                        _get(_source(job, is_doc), k) for is_doc, k in label_keys
                     )
 
             else:
 
                 def keyfunction(job):
                     return tuple(
-                        [_get_default(job.cached_statepoint, k, default) for k in sp_keys]
-                        + [_get_default(job.document, k, default) for k in doc_keys]
+                        _get_default(_source(job, is_doc), k, default)
+                        for is_doc, k in label_keys
                     )
 
         elif key is None:
